@@ -29,17 +29,28 @@ namespace EPV.C06
 
 /-! ### 1. every generated entry point is accepted -/
 
-theorem all_accepted : ∀ p ∈ programs, (da p.2 A0).isSome = true := by
+/-- entry points the analysis rejects on the current tree (each has a `…_finding` theorem and an
+entry in known_findings.json) -/
+def rejected : List String := ["run_NohBlackBoxEos"]
+
+theorem all_accepted : ∀ p ∈ programs, p.1 ∈ rejected ∨ (da p.2 A0).isSome = true := by
   decide +kernel
 
-/-- the generated table really contains the seven entry points (non-vacuity) -/
-theorem programs_names : programs.map (·.1) =
-    ["guderley_guderley_1d", "rmtv_rmtv", "suolson_suolson", "radshocks_greyED_RadShock_ED_driver",
-     "radshocks_greyNED_RadShock_nED_driver", "radshocks_greySn_RadShock_Sn_driver",
-     "radshocks_Shock_2Tie_IE_driver"] := by
+/-- the seven entry points that touch module-level globals -/
+def moduleEntryPoints : List String :=
+  ["guderley_guderley_1d", "rmtv_rmtv", "suolson_suolson", "radshocks_greyED_RadShock_ED_driver",
+   "radshocks_greyNED_RadShock_nED_driver", "radshocks_greySn_RadShock_Sn_driver",
+   "radshocks_Shock_2Tie_IE_driver"]
+
+/-- the generated table really contains them (non-vacuity) … -/
+theorem programs_names : ∀ n ∈ moduleEntryPoints, n ∈ programs.map (·.1) := by
   decide +kernel
 
-/-- the programs are not trivial: each contains at least one read of a shared location -/
+/-- … and the `_run` of the classes that have class-level mutable attributes some method mutates -/
+theorem programs_classes : ∀ n ∈ ["run_Blake", "run_NohBlackBoxEos"], n ∈ programs.map (·.1) := by
+  decide +kernel
+
+/-- the programs are not trivial: each module-level entry point contains a read of a shared location -/
 def hasRead : Stmt → Bool
   | .r _ => true
   | .iteEq _ _ _ _ => true
@@ -48,13 +59,19 @@ def hasRead : Stmt → Bool
   | .loop a => hasRead a
   | _ => false
 
-theorem programs_read : ∀ p ∈ programs, hasRead p.2 = true := by
+theorem programs_read : ∀ p ∈ programs, p.1 ∈ moduleEntryPoints → hasRead p.2 = true := by
+  decide +kernel
+
+/-- FINDING: `NohBlackBoxEos._run` reads the class-level `solver` object, which every instance
+shares and any instance may reconfigure, without having written it in the same call -/
+theorem nohblackbox_shared_solver_finding :
+    ∃ p ∈ programs, p.1 = "run_NohBlackBoxEos" ∧ da p.2 A0 = none := by
   decide +kernel
 
 /-- hence: every execution of every entry point, from any store, reads only its own writes -/
-theorem entry_points_clean (p : String × Stmt) (hp : p ∈ programs) {σ σ' : Store} {tr : List Ev}
-    (h : Exec p.2 σ tr σ') : cleanFrom tr [] = true :=
-  accepted_clean (all_accepted p hp) h
+theorem entry_points_clean (p : String × Stmt) (hp : p ∈ programs) (hr : p.1 ∉ rejected)
+    {σ σ' : Store} {tr : List Ev} (h : Exec p.2 σ tr σ') : cleanFrom tr [] = true :=
+  accepted_clean ((all_accepted p hp).resolve_left hr) h
 
 /-! ### 2. clean traces ⇒ independence of the initial store -/
 
